@@ -8,22 +8,38 @@ from pyvc.dsl import *
 from . import fileenv
 
 
-def unit_for(mmap):
+LINE_ENT = UnionS(INT, STR)       # an entry of _lines in a mutable file: a byte offset (read through) or a text (in memory)
+
+
+def unit_for(mmap, mutable=False):
     cls = "MemoryMappedRandomLineAccessFile" if mmap else "RandomLineAccessFile"
-    U = Unit("C11+C18/" + cls, "C11")
+    U = Unit(("C12/Mutable" if mutable else "C11+C18/") + cls, "C12" if mutable else "C11")
     fileenv.declare(U)
+    U.var("hh", RefS("Handle"))
     U.spec_fun("lineno_of", [STR, INT], INT)       # skolem function of 'this offset is the start of some line'
     M = U.module("windpyutils/files.py")
-    B = M.cls("BaseRandomLineAccessFile", fields={"path_to": STR, "_dirty": BOOL, "_lines": SeqS(INT)}, ghost={"jidx": SeqS(INT)})
+    B = M.cls("BaseRandomLineAccessFile", fields={"path_to": STR, "_dirty": BOOL, "_lines": SeqS(LINE_ENT if mutable else INT)},
+              ghost={"jidx": SeqS(INT)})
     R = M.cls("RandomLineAccessFile", fields={"file": RefS("Handle"), "_opened_in_process_with_id": OptS(INT)})
     MM = M.cls("MemoryMappedRandomLineAccessFile", fields={"mm": RefS("Handle")})
     C = MM if mmap else R
     fkind = fileenv.KIND_BIN if mmap else fileenv.KIND_TEXT_LF
     rd = "self.mm" if mmap else "self.file"
     P = "self.path_to"
-    V = "fs().ltext[self.path_to][self.jidx[%s]]"
-    valid = ("len(self.jidx) == len(self._lines) and forall(i, 0, len(self._lines), 0 <= self.jidx[i] and self.jidx[i] < fs().nl[%s]"
-             " and self._lines[i] == fs().lstart[%s][self.jidx[i]], trigger=self._lines[i])" % (P, P))
+    if mutable:
+        V = "ite(is_str(self._lines[%s]), as_str(self._lines[%s]), fs().ltext[self.path_to][self.jidx[%s]])"
+        V = V.replace("%s", "%(i)s")
+        Vf = lambda i: V % {"i": i}
+        valid = ("len(self.jidx) == len(self._lines) and forall(i, 0, len(self._lines), implies(is_int(self._lines[i]), 0 <= self.jidx[i]"
+                 " and self.jidx[i] < fs().nl[%s] and as_int(self._lines[i]) == fs().lstart[%s][self.jidx[i]]), trigger=self._lines[i])" % (P, P))
+    else:
+        V = "fs().ltext[self.path_to][self.jidx[%s]]"
+        Vf = lambda i: V % i
+        valid = ("len(self.jidx) == len(self._lines) and forall(i, 0, len(self._lines), 0 <= self.jidx[i] and self.jidx[i] < fs().nl[%s]"
+                 " and self._lines[i] == fs().lstart[%s][self.jidx[i]], trigger=self._lines[i])" % (P, P))
+    OFF = (lambda e: "as_int(%s)" % e) if mutable else (lambda e: e)
+    ISOFF = (lambda e: "is_int(%s) and " % e) if mutable else (lambda e: "")
+    LO = OptS(SeqS(LINE_ENT if mutable else INT))
     C.invariant("wf_file(%s)" % P, "file-content-model")
     C.invariant(valid, "every-index-entry-is-a-line-start")
     C.invariant("(self.file == None) == is_none(self._opened_in_process_with_id)", "pid-recorded-iff-open")
@@ -35,10 +51,11 @@ def unit_for(mmap):
         C.invariant("implies(self.mm != None, alive(self.mm) and not self.mm.closed and self.mm.path == %s"
                     " and self.mm.owner == some(self._opened_in_process_with_id) and self.mm.kind == 3 and self.mm != self.file)" % P,
                     "mmap-belongs-to-the-recorded-pid")
-    H = ["self.file", "self._opened_in_process_with_id", "Handle.pos[*]", "Handle.closed[*]"] + (["self.mm"] if mmap else [])
+    # only the object's own handles are touched (a handle opened during the call is a fresh object and needs no frame entry)
+    H = ["self.file", "self._opened_in_process_with_id", "self.file.pos", "self.file.closed"] + (["self.mm", "self.mm.pos", "self.mm.closed"] if mmap else [])
     usable = "%s != None and %s.owner == cur_pid()" % (rd, rd)
 
-    m = B.method("__init__", {"path_to": STR, "lines": OptS(SeqS(INT))}, inv_pre=False, inv_post=False)
+    m = B.method("__init__", {"path_to": STR, "lines": LO}, inv_pre=False, inv_post=False)
     m.modifies("self.path_to", "self._dirty", "self._lines")
     m.ensures("self.path_to == path_to and not self._dirty")
     m = B.method("dirty", {}, BOOL, kind="property", inv_pre=False, inv_post=False)
@@ -46,18 +63,19 @@ def unit_for(mmap):
 
     init_mod = ["self.path_to", "self._dirty", "self._lines", "self.file", "self._opened_in_process_with_id", "self.jidx"] + (["self.mm"] if mmap else [])
     for K in ([R, MM] if mmap else [R]):
-        m = K.method("__init__", {"path_to": STR, "line_offsets": OptS(SeqS(INT))}, inv_post=(K is C))
+        m = K.method("__init__", {"path_to": STR, "line_offsets": LO}, inv_post=(K is C))
         m.requires("wf_file(path_to)")
-        m.requires("implies(not is_none(line_offsets), forall(i, 0, len(some(line_offsets)), 0 <= lineno_of(path_to, some(line_offsets)[i])"
-                   " and lineno_of(path_to, some(line_offsets)[i]) < fs().nl[path_to]"
-                   " and some(line_offsets)[i] == fs().lstart[path_to][lineno_of(path_to, some(line_offsets)[i])]))",
+        lo_i = OFF("some(line_offsets)[i]")
+        m.requires("implies(not is_none(line_offsets), forall(i, 0, len(some(line_offsets)), %s0 <= lineno_of(path_to, %s)"
+                   " and lineno_of(path_to, %s) < fs().nl[path_to]"
+                   " and %s == fs().lstart[path_to][lineno_of(path_to, %s)]))" % (ISOFF("some(line_offsets)[i]"), lo_i, lo_i, lo_i, lo_i),
                    "a-caller-supplied-index-consists-of-line-starts")
         m.modifies(*init_mod)
         if K is R:
-            m.ghost_exit("self.jidx = ite(is_none(line_offsets), self.jidx, mkseq(i, len(some(line_offsets)), lineno_of(path_to, some(line_offsets)[i])))")
+            m.ghost_exit("self.jidx = ite(is_none(line_offsets), self.jidx, mkseq(i, len(some(line_offsets)), lineno_of(path_to, %s)))" % lo_i)
         m.ensures("self.path_to == path_to and self.file == None and is_none(self._opened_in_process_with_id) and not self._dirty")
-        m.ensures("len(self.jidx) == len(self._lines) and forall(i, 0, len(self._lines), 0 <= self.jidx[i] and self.jidx[i] < fs().nl[path_to]"
-                  " and self._lines[i] == fs().lstart[path_to][self.jidx[i]], trigger=self._lines[i])")
+        m.ensures("len(self.jidx) == len(self._lines) and forall(i, 0, len(self._lines), %s0 <= self.jidx[i] and self.jidx[i] < fs().nl[path_to]"
+                  " and %s == fs().lstart[path_to][self.jidx[i]], trigger=self._lines[i])" % (ISOFF("self._lines[i]"), OFF("self._lines[i]")))
         m.ensures("implies(is_none(line_offsets), len(self._lines) == fs().nl[path_to]"
                   " and forall(i, 0, len(self._lines), self.jidx[i] == i))", "built-index:len=number-of-lines,entry-i=line-i")
         m.ensures("implies(not is_none(line_offsets), self._lines == some(line_offsets))", "caller-supplied-index-honoured")
@@ -69,16 +87,18 @@ def unit_for(mmap):
     lp.invariant("f != None and fresh(f) and not f.closed and f.path == %s and f.kind == 0 and f.owner == cur_pid()" % P)
     lp.invariant("len(self._lines) >= 1 and len(self._lines) - 1 <= fs().nl[%s]" % P)
     lp.invariant("f.pos == fs().lstart[%s][len(self._lines) - 1]" % P)
-    lp.invariant("forall(i, 0, len(self._lines), self._lines[i] == fs().lstart[%s][i], trigger=self._lines[i])" % P)
+    lp.invariant("forall(i, 0, len(self._lines), %s%s == fs().lstart[%s][i], trigger=self._lines[i])" % (ISOFF("self._lines[i]"), OFF("self._lines[i]"), P))
     lp.decreases("fs().nl[%s] - (len(self._lines) - 1)" % P)
     m.ghost_exit("self.jidx = mkseq(i, len(self._lines), i)")
     m.ensures("len(self._lines) == fs().nl[%s] and len(self.jidx) == len(self._lines)" % P,
               "len=number-of-lines(unterminated-last-line-counts,final-newline-adds-none,empty-file=0)")
-    m.ensures("forall(i, 0, len(self._lines), self._lines[i] == fs().lstart[%s][i] and self.jidx[i] == i, trigger=self._lines[i])" % P,
-              "entry-i=start-of-line-i")
+    m.ensures("forall(i, 0, len(self._lines), %s%s == fs().lstart[%s][i] and self.jidx[i] == i, trigger=self._lines[i])"
+              % (ISOFF("self._lines[i]"), OFF("self._lines[i]"), P), "entry-i=start-of-line-i")
 
+    own = "(self.file == old(self.file) or fresh(self.file))" + (" and (self.mm == old(self.mm) or fresh(self.mm))" if mmap else "")
     m = C.method("open", {}, RefS(cls))
     m.modifies(*H)
+    m.ensures(own, "handles-are-the-old-ones-or-newly-opened")
     m.ensures("result == self and self.file != None")
     m.ensures("implies(old(self.file) != None, self.file == old(self.file) and same(self._opened_in_process_with_id, old(self._opened_in_process_with_id)))",
               "already-open:no-op")
@@ -88,6 +108,7 @@ def unit_for(mmap):
     m.ensures("self.file == None")
     m = R.method("reopen_if_needed", {})
     m.modifies(*H)
+    m.ensures(own, "handles-are-the-old-ones-or-newly-opened")
     m.ensures("(self.file == None) == (old(self.file) == None)")
     m.ensures("implies(self.file != None, some(self._opened_in_process_with_id) == cur_pid())",
               "an-open-handle-now-belongs-to-the-current-process")
@@ -96,35 +117,44 @@ def unit_for(mmap):
     m = C.method("closed", {}, BOOL, kind="property")
     m.ensures("result == (self.file == None)")
     m = C.method("_file_seek", {"offset": INT}, inv_pre=True, inv_post=True)
+    m.ensures(own, "handles-are-the-old-ones-or-newly-opened")
     m.requires("self.file != None", "file-open")
     m.modifies(*H)
     m.ensures("self.file != None and %s and %s.pos == offset" % (usable, rd), "positioned-on-a-handle-owned-by-this-process")
     m = C.method("_read_next_line", {}, STR, inv_pre=True, inv_post=True)
+    m.ensures(own, "handles-are-the-old-ones-or-newly-opened")
     m.requires("self.file != None", "file-open")
     m.modifies(*H)
     m.ensures("self.file != None")
     m.ensures("forall(j, 0, fs().nl[%s], implies(old(%s) != None and old(%s.owner) == cur_pid() and old(%s.pos) == fs().lstart[%s][j],"
               " result == fs().ltext[%s][j]))" % (P, rd, rd, rd, P, P), "at-the-start-of-line-j:returns-line-j-without-terminator")
     m = C.method("_read_line", {"n": INT}, STR, inv_pre=True, inv_post=True)
+    m.ensures(own, "handles-are-the-old-ones-or-newly-opened")
     m.requires("self.file != None")
+    if mutable:
+        m.requires("implies(-len(self._lines) <= n and n < len(self._lines), is_int(self._lines[ite(n < 0, n + len(self._lines), n)]))",
+                   "entry-n-is-a-file-offset")
     m.raises("IndexError", when="not (-len(self._lines) <= n and n < len(self._lines))")
     m.modifies(*H)
     m.ensures("self.file != None")
-    m.ensures("result == " + V % "ite(n < 0, n + len(self._lines), n)", "line-n-of-the-index=the-file's-line(negative-n-from-the-end)")
+    m.ensures("result == " + Vf("ite(n < 0, n + len(self._lines), n)"), "line-n-of-the-index=the-file's-line(negative-n-from-the-end)")
     m = B.method("_get_item", {"n": INT}, STR, inv_pre=True, inv_post=True)
+    m.ensures(own, "handles-are-the-old-ones-or-newly-opened")
     m.requires("self.file != None")
     m.raises("IndexError", when="not (-len(self._lines) <= n and n < len(self._lines))")
     m.modifies(*H)
     m.ensures("self.file != None")
-    m.ensures("result == " + V % "ite(n < 0, n + len(self._lines), n)", "f[i]=i-th-line(negative-i-from-the-end)")
+    m.ensures("result == " + Vf("ite(n < 0, n + len(self._lines), n)"), "f[i]=i-th-line(negative-i-from-the-end)")
     m = B.method("__getitem__", {"selector": INT}, STR)      # int selectors; slices / iterables of indices: bounded layer only
+    m.ensures(own, "handles-are-the-old-ones-or-newly-opened")
     m.raises("RuntimeError", when="self.file == None")
     m.raises("IndexError", when="self.file != None and not (-len(self._lines) <= selector and selector < len(self._lines))")
     m.modifies(*H)
-    m.ensures("result == " + V % "ite(selector < 0, selector + len(self._lines), selector)", "f[i]=i-th-line-without-terminator(negative-i-from-the-end)")
+    m.ensures("result == " + Vf("ite(selector < 0, selector + len(self._lines), selector)"), "f[i]=i-th-line-without-terminator(negative-i-from-the-end)")
     m = B.method("__len__", {}, INT)
     m.ensures("result == len(self._lines)")
     m = B.method("__iter__", {}, yields=STR)
+    m.ensures(own, "handles-are-the-old-ones-or-newly-opened")
     m.raises("RuntimeError", when="self.file == None")
     m.modifies(*H)
     m.reads("BaseRandomLineAccessFile._lines")
@@ -133,11 +163,14 @@ def unit_for(mmap):
     lp = m.loop(1).with_class_invariant()
     lp.invariant("self.file != None and len(yielded) == _i1 and len(_seq1) == len(self._lines)")
     lp.invariant("same(self._lines, old(self._lines)) and same(self.jidx, old(self.jidx)) and self.path_to == old(self.path_to)")
-    lp.invariant("forall(t, 0, _i1, yielded[t] == " + V % "t" + ", trigger=yielded[t])")
+    lp.invariant(own)
+    lp.invariant("forall(hh, implies(old(alive(hh)) and hh != None and hh != old(self.file)%s, hh.pos == old(hh.pos) and hh.closed == old(hh.closed)))"
+                 % (" and hh != old(self.mm)" if mmap else ""), "other-handles-untouched")
+    lp.invariant("forall(t, 0, _i1, yielded[t] == " + Vf("t") + ", trigger=yielded[t])")
     m.ensures("len(yielded) == len(self._lines)")
-    m.ensures("forall(t, 0, len(yielded), yielded[t] == " + V % "t" + ", trigger=yielded[t])",
+    m.ensures("forall(t, 0, len(yielded), yielded[t] == " + Vf("t") + ", trigger=yielded[t])",
               "iteration=indexing(also-with-interleaved-accesses-moving-the-cursor)")
-    return U, C, cls
+    return (U, C, cls) if not mutable else (U, C, cls, dict(B=B, R=R, MM=MM, M=M, H=H, Vf=Vf, P=P, rd=rd, valid=valid, own=own))
 
 
 def finish(U, C, cls, mmap):
@@ -177,9 +210,11 @@ def unit_mapaccess():
     C.invariant("(self.file == None) == is_none(self._opened_in_process_with_id)", "pid-recorded-iff-open")
     C.invariant("implies(self.file != None, alive(self.file) and not self.file.closed and self.file.path == self.path_to"
                 " and self.file.owner == some(self._opened_in_process_with_id))", "handle-belongs-to-the-recorded-pid")
-    H = ["self.file", "self._opened_in_process_with_id", "Handle.pos[*]", "Handle.closed[*]"]
+    H = ["self.file", "self._opened_in_process_with_id", "self.file.pos", "self.file.closed"]
+    own = "(self.file == old(self.file) or fresh(self.file))"
     m = C.method("open", {}, RefS("MapAccessFile"))
     m.modifies(*H)
+    m.ensures(own)
     m.ensures("result == self and self.file != None")
     m.ensures("implies(old(self.file) == None, some(self._opened_in_process_with_id) == cur_pid())")
     m.ensures("implies(old(self.file) != None, self.file == old(self.file) and same(self._opened_in_process_with_id, old(self._opened_in_process_with_id)))")
@@ -188,6 +223,7 @@ def unit_mapaccess():
     m.ensures("self.file == None")
     m = C.method("reopen_if_needed", {})
     m.modifies(*H)
+    m.ensures(own)
     m.ensures("(self.file == None) == (old(self.file) == None)")
     m.ensures("implies(self.file != None, some(self._opened_in_process_with_id) == cur_pid())", "an-open-handle-now-belongs-to-the-current-process")
     m = C.method("__len__", {}, INT)
